@@ -1,6 +1,6 @@
 /-
-  Proofs.C06Bridge — the query `_ensure_uniques` issues is key equality on scalar-keyed
-  documents.
+  Proofs.C06Bridge — the look-up `_ensure_uniques` issues (`{key: {$eq: value}, …}`) is key
+  equality on documents whose indexed paths are value paths.
 -/
 import Proofs.C06Scalar
 import Proofs.C01Main
@@ -9,8 +9,8 @@ set_option linter.unusedSimpArgs false
 
 namespace MongoModel.Proofs.C06Lemmas
 open MongoModel MongoModel.Spec
-open MongoModel.Proofs.C01Lemmas (applyFields_cons applyHead applyKey_plain_nondoc candsKey_of_keyOk
-  ne_of_not_dollar)
+open MongoModel.Proofs.C01Lemmas (applyFields_cons applyHead applyKey_single singleOp_pos leafOp_eq
+  candsKey_of_keyOk ne_of_not_dollar)
 
 /-! ### paths -/
 
@@ -33,26 +33,27 @@ theorem cands_empty_doc (ps : List String) (p : String) : cands (p :: ps) (.doc 
   | nil => simp [cands, dget]
   | cons q qs ih => simp only [cands, dget, Option.getD_none]; exact ih q
 
-/-- along a scalar path: exactly one candidate, the value `get_value_by_dot` finds (or NOTHING
+/-- along a value path: exactly one candidate, the value `get_value_by_dot` finds (or NOTHING
     where it raises KeyError) -/
-theorem path_scalar (ps : List String) (p : String) (d : Val) (h : scalarPath (p :: ps) d = true) :
-    (∃ v, isScalar v = true ∧ getByDotParts (p :: ps) d = .ok v ∧ cands (p :: ps) d = .ok [some v]) ∨
+theorem path_value (ps : List String) (p : String) (d : Val) (h : valuePath (p :: ps) d = true) :
+    (∃ v, isKeyable v = true ∧ getByDotParts (p :: ps) d = .ok v ∧ cands (p :: ps) d = .ok [some v]) ∨
     (getByDotParts (p :: ps) d = .error .keyErr ∧ cands (p :: ps) d = .ok [none]) := by
   induction ps generalizing p d with
   | nil =>
     cases d with
     | doc fs =>
-      simp only [scalarPath] at h
+      simp only [valuePath] at h
       cases hg : dget p fs with
       | none => right; simp [getByDotParts, cands, hg]
       | some v =>
         rw [hg] at h
         left; exact ⟨v, h, by simp [getByDotParts, hg], by simp [cands, hg]⟩
-    | _ => simp [scalarPath] at h
+    | arr xs => simp [valuePath] at h
+    | _ => right; simp [getByDotParts, cands]
   | cons q qs ih =>
     cases d with
     | doc fs =>
-      simp only [scalarPath] at h
+      simp only [valuePath] at h
       cases hg : dget p fs with
       | none =>
         right
@@ -62,7 +63,8 @@ theorem path_scalar (ps : List String) (p : String) (d : Val) (h : scalarPath (p
         rw [hg] at h
         simp only [getByDotParts, cands, hg, Option.getD_some]
         exact ih q v h
-    | _ => simp [scalarPath] at h
+    | arr xs => simp [valuePath] at h
+    | _ => right; simp [getByDotParts, cands]
 
 /-- the index-key component of a document at one field -/
 def kv1 (k : String) (d : Val) : Val :=
@@ -70,43 +72,51 @@ def kv1 (k : String) (d : Val) : Val :=
   | .ok v => v
   | .error _ => .null
 
-/-- the conditions `scalarKeys` puts on a field name and the document -/
+/-- the conditions `valueKeys` puts on a field name and the document -/
 def okField (k : String) (d : Val) : Prop :=
-  keyOk k = true ∧ k.startsWith "$" = false ∧ scalarPath (splitDots k) d = true
+  keyOk k = true ∧ k.startsWith "$" = false ∧ valuePath (splitDots k) d = true
 
 theorem okField_get {k : String} {d : Val} (h : okField k d) :
-    (∃ v, isScalar v = true ∧ getByDot d k = .ok v ∧ candsKey k d = .ok [some v]) ∨
+    (∃ v, isKeyable v = true ∧ getByDot d k = .ok v ∧ candsKey k d = .ok [some v]) ∨
     (getByDot d k = .error .keyErr ∧ candsKey k d = .ok [none]) := by
   obtain ⟨h1, _, h3⟩ := h
   rw [candsKey_of_keyOk d h1]
   obtain ⟨p, ps, hp⟩ := splitDots_cons k
   unfold getByDot
   rw [hp] at h3 ⊢
-  exact path_scalar ps p d h3
+  exact path_value ps p d h3
 
-theorem kv1_scalar {k : String} {d : Val} (h : okField k d) : isScalar (kv1 k d) = true := by
+theorem kv1_keyable {k : String} {d : Val} (h : okField k d) : isKeyable (kv1 k d) = true := by
   unfold kv1
   rcases okField_get h with ⟨v, hv, hg, _⟩ | ⟨hg, _⟩ <;> rw [hg]
   · exact hv
   · rfl
 
-theorem plainMatch_scalar {x v : Val} (hx : isScalar x = true) : plainMatch v (some x) = pyEq x v := by
-  cases x <;> simp [plainMatch, isScalar] at hx ⊢
+theorem opEq_keyable {x : Val} (v : Val) (hx : isKeyable x = true) : opEq (some x) v = pyEq x v := by
+  have := isKeyable_notArr hx
+  cases x <;> simp [Val.isArr] at this <;> simp [opEq, operatorEq]
 
-theorem plainMatch_none (v : Val) : plainMatch v none = pyEq .null v := by
-  cases v <;> simp [plainMatch, pyEq]
+theorem opEq_none (v : Val) : opEq none v = pyEq .null v := by
+  cases v <;> simp [opEq, operatorEq, pyEq]
 
-/-- one item `(k, v)` of the query on a document whose path `k` is scalar -/
-theorem applyKey_scalar {k : String} {e v : Val} (h : okField k e) (hv : isScalar v = true) :
-    applyKey v k e = .ok (pyEq (kv1 k e) v) := by
-  have hnd : ∀ fs, v = .doc fs → False := by
-    intro fs hh; subst hh; simp [isScalar] at hv
+/-- one item `(k, {$eq: v})` of the look-up on a document whose path `k` is a value path: the
+    operand `v` is compared as data, whatever it is -/
+theorem applyKey_eq {k : String} {e : Val} (v : Val) (h : okField k e) :
+    applyKey (eqCond v) k e = .ok (pyEq (kv1 k e) v) := by
+  unfold eqCond
+  rw [applyKey_single "$eq" v k e (by decide)]
   unfold kv1
   rcases okField_get h with ⟨x, hx, hg, hc⟩ | ⟨hg, hc⟩
-  · rw [applyKey_plain_nondoc v k e _ hnd hc, hg]
-    simp [plainMatch_scalar hx]
-  · rw [applyKey_plain_nondoc v k e _ hnd hc, hg]
-    simp [plainMatch_none]
+  · rw [hc, hg]
+    simp only [Except.bind]
+    rw [singleOp_pos "$eq" v _ (fun dv => opEq dv v) (by decide) (by decide) (by decide)
+      (leafOp_eq v)]
+    simp [opEq_keyable v hx]
+  · rw [hc, hg]
+    simp only [Except.bind]
+    rw [singleOp_pos "$eq" v _ (fun dv => opEq dv v) (by decide) (by decide) (by decide)
+      (leafOp_eq v)]
+    simp [opEq_none]
 
 theorem applyHead_field {k : String} (v e : Val) (hk : k.startsWith "$" = false) :
     applyHead k v e = applyKey v k e := by
@@ -127,35 +137,34 @@ def kv (keys : List (String × Val)) (d : Val) : List Val := keys.map (fun k => 
 theorem keyVals_eq (ix : Index) (d : Val) : keyVals ix d = kv ix.keys d := rfl
 
 /-- the `kwargs` of `_ensure_uniques` when the field names are distinct -/
-def kwOf (keys : List (String × Val)) (d : Val) : Fields := keys.map (fun k => (k.1, kv1 k.1 d))
+def kwOf (keys : List (String × Val)) (d : Val) : Fields :=
+  keys.map (fun k => (k.1, eqCond (kv1 k.1 d)))
 
 def OkKeys (keys : List (String × Val)) (d : Val) : Prop := ∀ k ∈ keys, okField k.1 d
 
-theorem kv_allScalar {keys : List (String × Val)} {d : Val} (h : OkKeys keys d) :
-    AllScalar (kv keys d) := by
+theorem kv_allKeyable {keys : List (String × Val)} {d : Val} (h : OkKeys keys d) :
+    AllKeyable (kv keys d) := by
   intro v hv
   simp only [kv, List.mem_map] at hv
   obtain ⟨k, hk, rfl⟩ := hv
-  exact kv1_scalar (h k hk)
+  exact kv1_keyable (h k hk)
 
-/-- the equality query on a scalar-keyed document is key equality -/
-theorem applyFields_kw (keys : List (String × Val)) (new e : Val) (hn : OkKeys keys new)
-    (he : OkKeys keys e) :
+/-- the look-up on a document whose indexed paths are value paths is key equality (nothing is
+    asked of the NEW document's values beyond what makes `kv` its key: the operands are data) -/
+theorem applyFields_kw (keys : List (String × Val)) (new e : Val) (he : OkKeys keys e) :
     applyFields (kwOf keys new) e = .ok (keyEq (kv keys e) (kv keys new)) := by
   induction keys with
   | nil => simp [kwOf, kv, applyFields]
   | cons k keys ih =>
-    have hn' : OkKeys keys new := fun k' h' => hn k' (List.mem_cons_of_mem _ h')
     have he' : OkKeys keys e := fun k' h' => he k' (List.mem_cons_of_mem _ h')
     have h1 := he k (List.mem_cons_self ..)
-    have h2 := hn k (List.mem_cons_self ..)
     simp only [kwOf, kv, List.map_cons, keyEq_cons] at ih ⊢
-    rw [applyFields_cons, applyHead_field _ _ h1.2.1, applyKey_scalar h1 (kv1_scalar h2)]
+    rw [applyFields_cons, applyHead_field _ _ h1.2.1, applyKey_eq _ h1]
     simp only [bind, Except.bind, pure, Except.pure]
     cases hq : pyEq (kv1 k.1 e) (kv1 k.1 new)
     · simp
     · simp only [if_true, Bool.true_and]
-      exact ih hn' he'
+      exact ih he'
 
 /-! ### `valuesFor` -/
 
@@ -204,8 +213,8 @@ theorem valuesFor_go (keys : List (String × Val)) (d : Val) (acc : Fields) (hok
     (hnd : (keys.map (·.1)).Nodup) (hdis : ∀ k ∈ keys, k.1 ∉ dkeys acc) :
     keys.foldlM (fun acc kv =>
       match getByDot d kv.1 with
-      | .ok v => Except.ok (dset kv.1 v acc)
-      | .error .keyErr => .ok (dset kv.1 .null acc)
+      | .ok v => Except.ok (dset kv.1 (eqCond v) acc)
+      | .error .keyErr => .ok (dset kv.1 (eqCond .null) acc)
       | .error e => .error e) acc = .ok (acc ++ kwOf keys d) := by
   induction keys generalizing acc with
   | nil => simp [kwOf, pure, Except.pure]
@@ -214,15 +223,15 @@ theorem valuesFor_go (keys : List (String × Val)) (d : Val) (acc : Fields) (hok
     have hok' : OkKeys keys d := fun k' h' => hok k' (List.mem_cons_of_mem _ h')
     simp only [List.map_cons, List.nodup_cons] at hnd
     have hstep : (match getByDot d k.1 with
-        | .ok v => Except.ok (dset k.1 v acc)
-        | .error .keyErr => .ok (dset k.1 .null acc)
-        | .error e => .error e) = .ok (acc ++ [(k.1, kv1 k.1 d)]) := by
+        | .ok v => Except.ok (dset k.1 (eqCond v) acc)
+        | .error .keyErr => .ok (dset k.1 (eqCond .null) acc)
+        | .error e => .error e) = .ok (acc ++ [(k.1, eqCond (kv1 k.1 d))]) := by
       unfold kv1
       rcases okField_get hk with ⟨v, _, hg, _⟩ | ⟨hg, _⟩ <;> rw [hg] <;>
         simp only [dset_append (hdis k (List.mem_cons_self ..))]
     rw [List.foldlM_cons, hstep]
     simp only [bind, Except.bind]
-    rw [ih (acc ++ [(k.1, kv1 k.1 d)]) hok' hnd.2]
+    rw [ih (acc ++ [(k.1, eqCond (kv1 k.1 d))]) hok' hnd.2]
     · simp [kwOf]
     · intro k' hk'
       simp only [dkeys, List.map_append, List.map_cons, List.map_nil, List.mem_append,
@@ -237,21 +246,18 @@ theorem valuesFor_ok (keys : List (String × Val)) (d : Val) (hok : OkKeys keys 
   simp only [List.nil_append] at h
   exact h
 
-/-- the test `_ensure_uniques` applies to the items of `kwargs` for a sparse index -/
-def isNullKv (kv : String × Val) : Bool :=
-  match kv.2 with
-  | .null => true
-  | _ => false
-
 theorem kwOf_all_null (keys : List (String × Val)) (d : Val) :
-    (kwOf keys d).all isNullKv = (kv keys d).all isNull := by
+    (kwOf keys d).all isNullCond = (kv keys d).all isNull := by
   simp only [kwOf, kv, List.all_map]
   congr 1
+  funext k
+  simp only [Function.comp, isNullCond, eqCond]
+  cases kv1 k.1 d <;> rfl
 
-theorem okKeys_of_scalarKeys {ix : Index} {d : Val} (h : scalarKeys ix d = true) :
+theorem okKeys_of_valueKeys {ix : Index} {d : Val} (h : valueKeys ix d = true) :
     OkKeys ix.keys d := by
   intro k hk
-  simp only [scalarKeys, List.all_eq_true, Bool.and_eq_true, Bool.not_eq_true'] at h
+  simp only [valueKeys, List.all_eq_true, Bool.and_eq_true, Bool.not_eq_true'] at h
   obtain ⟨⟨⟨h1, h2⟩, _⟩, h4⟩ := h k hk
   exact ⟨h1, h2, h4⟩
 
@@ -275,10 +281,10 @@ theorem covers_eq (ix : Index) (d : Val) :
     covers ix d = (!(ix.sparse && (kv ix.keys d).all isNull) && pfOk ix d) := rfl
 
 /-- a document that passes the partial filter and has the key of `new` matches the query -/
-theorem query_matches (ix : Index) (new e : Val) (hn : OkKeys ix.keys new) (he : OkKeys ix.keys e)
+theorem query_matches (ix : Index) (new e : Val) (he : OkKeys ix.keys e)
     (hp : pfOk ix e = true) (hk : keyEq (kv ix.keys e) (kv ix.keys new) = true) :
     filterApplies (queryOf ix (kwOf ix.keys new)) e = .ok true := by
-  have hb := applyFields_kw ix.keys new e hn he
+  have hb := applyFields_kw ix.keys new e he
   rw [hk] at hb
   unfold queryOf pfOk at *
   cases hpf : ix.partialFilter with
